@@ -549,4 +549,145 @@ Proof.
   rewrite (echo_faithful _ _ Hq). apply file_lines_concat.
 Qed.
 End Bytes.
+
+(* ---------- the significant tokens of the result, for a reference tokenizer with the chunking
+   property (the token-level clause of C14, relative to hypotheses about the lexer stack) ---------- *)
+Section Tokens.
+Variable T : Type.
+Variable sigt : bytes -> option (list T).      (* the significant tokens of a text, if it lexes *)
+(* a text that ends in a newline lexes independently of what follows it *)
+Hypothesis chunking : forall a b ta tb,
+  ends_with_nl a = true -> sigt a = Some ta -> sigt b = Some tb -> sigt (a ++ b) = Some (ta ++ tb).
+(* a newline at the very end adds no significant token *)
+Hypothesis final_nl : forall a ta, sigt a = Some ta -> sigt (a ++ [10]) = Some ta.
+Hypothesis sigt_nil : sigt [] = Some [].
+Hypothesis echo_faithful : forall ls q, parse_lines ls = Ok q -> concat (echo q) = concat ls.
+Hypothesis file_lines_concat : forall c, concat (file_lines c) = c.
+
+Definition toks (x : bytes) : list T := match sigt x with Some t => t | None => [] end.
+Definition lexes (x : bytes) : Prop := sigt x <> None.
+
+Lemma lexes_toks x : lexes x -> sigt x = Some (toks x).
+Proof. unfold lexes, toks. destruct (sigt x); [reflexivity | congruence]. Qed.
+
+(* chunks that are empty or end in a newline, followed by a last text *)
+Lemma sigt_chunks (cs : list bytes) (z : bytes) :
+  Forall (fun c => (c = [] \/ ends_with_nl c = true) /\ lexes c) cs -> lexes z ->
+  sigt (concat cs ++ z) = Some (concat (map toks cs) ++ toks z).
+Proof.
+  intros Hcs Hz. induction Hcs as [|c cs [Hc Hl] _ IH]; [apply lexes_toks, Hz|].
+  cbn [concat map]. rewrite <- !app_assoc. destruct Hc as [->|Hc].
+  - cbn [app]. unfold toks at 1. rewrite sigt_nil. exact IH.
+  - apply chunking; [exact Hc | apply lexes_toks, Hl | exact IH].
+Qed.
+
+Lemma ends_with_nl_concat_last (ls : list bytes) d :
+  ls <> [] -> ends_with_nl (last ls d) = true -> ends_with_nl (concat ls) = true.
+Proof.
+  induction ls as [|l ls IH]; [congruence|]. intros _ H. destruct ls as [|l2 ls].
+  - cbn in *. rewrite app_nil_r. exact H.
+  - change (last (l :: l2 :: ls) d) with (last (l2 :: ls) d) in H.
+    assert (IH' : ends_with_nl (concat (l2 :: ls)) = true) by (apply IH; [discriminate | exact H]).
+    change (concat (l :: l2 :: ls)) with (l ++ concat (l2 :: ls)).
+    rewrite ends_with_nl_app; [exact IH'|]. intros E. rewrite E in IH'. discriminate.
+Qed.
+
+(* the bytes a block puts between its header line and its `end` line *)
+Definition block_body (e : bytes * P) : bytes :=
+  concat (echo (snd e)) ++
+  (if ends_with_nl (last (echo (snd e)) (header_line (fst e))) then [] else nl_line).
+
+Lemma block_concat e :
+  concat (block e) = header_line (fst e) ++ block_body e ++ end_line.
+Proof.
+  unfold ReqEmbed.block, block_body. cbn [concat]. rewrite !concat_app.
+  destruct (ends_with_nl _); cbn [concat]; rewrite ?app_nil_r, <- ?app_assoc; reflexivity.
+Qed.
+
+Hypothesis nl_line_is_nl : nl_line = [10].
+Hypothesis header_nl : forall n, ends_with_nl (header_line n) = true.
+Hypothesis end_line_nl : ends_with_nl end_line = true.
+Hypothesis preamble_package_nl : Forall (fun l => ends_with_nl l = true) preamble_package.
+Hypothesis preamble_require_nl : Forall (fun l => ends_with_nl l = true) preamble_require.
+
+Lemma block_body_chunk e :
+  lexes (concat (echo (snd e))) ->
+  (block_body e = [] \/ ends_with_nl (block_body e) = true) /\ lexes (block_body e) /\
+  toks (block_body e) = toks (concat (echo (snd e))).
+Proof.
+  intros Hl. unfold block_body.
+  destruct (ends_with_nl (last (echo (snd e)) (header_line (fst e)))) eqn:E.
+  - rewrite app_nil_r. split; [|split; [exact Hl | reflexivity]].
+    destruct (echo (snd e)) as [|l ls] eqn:Ee; [left; reflexivity|].
+    right. apply (ends_with_nl_concat_last (l :: ls) (header_line (fst e))); [discriminate | exact E].
+  - rewrite nl_line_is_nl. split; [right; apply ends_with_nl_app; discriminate|].
+    pose proof (final_nl _ _ (lexes_toks _ Hl)) as H.
+    split; [unfold lexes; rewrite H; discriminate|]. unfold toks at 1. rewrite H. reflexivity.
+Qed.
+
+Definition block_toks (e : bytes * P) : list T :=
+  toks (header_line (fst e)) ++ toks (concat (echo (snd e))) ++ toks end_line.
+
+Definition block_chunks (e : bytes * P) : list bytes := [header_line (fst e); block_body e; end_line].
+
+Lemma blocks_bytes pk :
+  concat (map (fun e => concat (block e)) pk) = concat (flat_map block_chunks pk).
+Proof.
+  induction pk as [|e pk IH]; [reflexivity|]. cbn [map concat flat_map].
+  rewrite concat_app, block_concat, IH. unfold block_chunks. cbn [concat]. rewrite app_nil_r, <- !app_assoc.
+  reflexivity.
+Qed.
+
+Definition block_lexes (e : bytes * P) : Prop :=
+  lexes (header_line (fst e)) /\ lexes (concat (echo (snd e))).
+
+Lemma blocks_toks pk : Forall block_lexes pk ->
+  concat (map toks (flat_map block_chunks pk)) = concat (map block_toks pk).
+Proof.
+  intros H. induction H as [|e pk [Hh Hbd] _ IH]; [reflexivity|]. cbn [map concat flat_map].
+  rewrite map_app, concat_app, IH. unfold block_toks, block_chunks. cbn [map concat].
+  rewrite (proj2 (proj2 (block_body_chunk e Hbd))). rewrite app_nil_r, <- !app_assoc.
+  reflexivity.
+Qed.
+
+Lemma blocks_chunks_ok pk : Forall block_lexes pk -> lexes end_line ->
+  Forall (fun c => (c = [] \/ ends_with_nl c = true) /\ lexes c) (flat_map block_chunks pk).
+Proof.
+  intros H Hend. induction H as [|e pk [Hh Hbd] _ IH]; [constructor|]. cbn [flat_map]. unfold block_chunks at 1.
+  destruct (block_body_chunk e Hbd) as (Hc & Hl & _). cbn [app].
+  constructor; [split; [right; apply header_nl | exact Hh]|].
+  constructor; [split; assumption|].
+  constructor; [split; [right; exact end_line_nl | exact Hend]|]. exact IH.
+Qed.
+
+Lemma build_code_tokens fuel mp mc out :
+  build_code fuel mp mc = Ok out ->
+  exists r pk, build_lua fuel mp mc = Ok (r, pk) /\
+    (Forall lexes preamble_package -> Forall lexes preamble_require -> lexes end_line ->
+     Forall block_lexes pk -> lexes mc ->
+     sigt out = Some match pk with
+                     | [] => toks mc
+                     | _ => concat (map toks preamble_package) ++ concat (map block_toks pk)
+                            ++ concat (map toks preamble_require) ++ toks mc
+                     end).
+Proof.
+  intros H. destruct (build_code_bytes echo_faithful file_lines_concat _ _ _ _ H)
+    as (r & pk & tail & Hb & Ht & ->).
+  exists r, pk. split; [exact Hb|]. intros Hpp Hpr Hend Hpk Hmc.
+  assert (Hmain : forall x tx, sigt x = Some tx -> sigt (x ++ tail) = Some tx).
+  { intros x tx Hx. destruct Ht as [->| ->]; [rewrite app_nil_r; exact Hx | apply final_nl, Hx]. }
+  destruct pk as [|e0 pk0]; [apply Hmain, lexes_toks, Hmc|].
+  apply Hmain. remember (e0 :: pk0) as pk eqn:Epk. clear Epk Hb.
+  rewrite blocks_bytes.
+  replace (concat preamble_package ++ concat (flat_map block_chunks pk) ++ concat preamble_require ++ mc)
+    with (concat (preamble_package ++ flat_map block_chunks pk ++ preamble_require) ++ mc)
+    by (rewrite !concat_app, <- !app_assoc; reflexivity).
+  rewrite sigt_chunks; [| |exact Hmc].
+  - rewrite !map_app, !concat_app, <- !app_assoc, (blocks_toks pk Hpk). reflexivity.
+  - apply Forall_app. split; [|apply Forall_app; split].
+    + rewrite Forall_forall in *. intros l Hl. split; [right; apply preamble_package_nl, Hl | apply Hpp, Hl].
+    + apply blocks_chunks_ok; assumption.
+    + rewrite Forall_forall in *. intros l Hl. split; [right; apply preamble_require_nl, Hl | apply Hpr, Hl].
+Qed.
+End Tokens.
 End EmbedProofs.
